@@ -563,7 +563,8 @@ func (w *world) joinWindow(prefix string) func() bool {
 		}
 		return true
 	}
-	rev, del, snaps := w.st.rev, vt.deliveries, vt.snapshots
+	rev, del, snaps, begun := w.st.rev, vt.deliveries, vt.snapshots, vt.sendsBegun
+	sending := vt.sendsBegun != vt.deliveries // a batch is on its way to the watch goroutine right now
 	recent := vt.deliveries > 0 && time.Since(vt.lastDelivery) <= 5*time.Second
 	// a reload snapshot (the 2nd or a later Get of the range) handed to go-zero a moment ago or
 	// during the call is in flight in the same sense: handleChanges applies it to the listeners
@@ -576,7 +577,7 @@ func (w *world) joinWindow(prefix string) func() bool {
 	return func() bool {
 		// which of two overlapping joins reaches the registry first is the scheduler's choice
 		late := late || w.joinsBegun[prefix] >= 2
-		race := late && (recent || lag || rev != w.st.rev || del != vt.deliveries || snaps != vt.snapshots || !upToDate() || behind())
+		race := late && (recent || lag || sending || begun != vt.sendsBegun || vt.sendsBegun != vt.deliveries || rev != w.st.rev || del != vt.deliveries || snaps != vt.snapshots || !upToDate() || behind())
 		if race {
 			w.r.Probe("late-join-with-events-in-flight")
 		}
